@@ -49,6 +49,22 @@ int save_max_depth;
 int *save_svalue_sizes = 0;
 
 /**
+ * Print a float so that it is restored as a float: "%g" alone prints integral
+ * values without a decimal point ("1", "100000") and they come back as integers.
+ * @returns the number of characters written to buf (not counting the terminator).
+ */
+static size_t save_real (char *buf, double d) {
+  size_t len = (size_t) sprintf (buf, "%#g", d); /* '#' keeps the decimal point */
+
+  if (len && buf[len - 1] == '.') /* "100000." - parse_numeric() wants a digit after the point */
+    {
+      buf[len++] = '0';
+      buf[len] = '\0';
+    }
+  return len;
+}
+
+/**
  * Calculate the size needed to save an svalue_t.
  */
 size_t svalue_save_size (const svalue_t * v) {
@@ -140,8 +156,7 @@ size_t svalue_save_size (const svalue_t * v) {
     case T_REAL:
       {
         char buf[256];
-        sprintf (buf, "%g", v->u.real);
-        return strlen (buf) + 1; /* 1 for comma/colon */
+        return save_real (buf, v->u.real) + 1; /* 1 for comma/colon */
       }
 
     default:
@@ -243,8 +258,7 @@ void save_svalue (svalue_t * v, char **buf) {
 
     case T_REAL:
       {
-        sprintf (*buf, "%g", v->u.real);
-        (*buf) += strlen (*buf);
+        (*buf) += save_real (*buf, v->u.real);
         return;
       }
 
